@@ -2,6 +2,7 @@ import Secp.Proofs.Schnorr
 import Secp.Props.C03
 import Secp.Proofs.Slices
 import Secp.Proofs.BytesProgSig
+import Secp.Proofs.BytesBuild
 /-
   Props/C11 — EC-Schnorr-DCRv0 signing and verification follow the published scheme.
   Model: `Secp.Model.schnorrSignM`, `schnorrSign`, `schnorrVerifyM`, `schnorrParse`,
@@ -75,5 +76,11 @@ theorem schnorr_field_arithmetic_exact :
 theorem schnorrParse_regenerated (b : Bytes) :
     Secp.Gen.BytesProg.schnorrParse b = Secp.Proofs.BytesProgSig.ofExcept (schnorrParse b) :=
   Secp.Proofs.BytesProgSig.schnorrParse_gen_eq_model b
+
+
+/-- schnorr `Signature.Serialize` as REGENERATED (pass T7, builders) is the model `schnorrSerialize` -/
+theorem schnorrSerialize_regenerated (r s : Nat) :
+    Secp.Gen.BytesBuild.schnorrSerialize r s = schnorrSerialize r s :=
+  Secp.Proofs.BytesBuild.schnorrSerialize_gen_eq_model r s
 
 end Secp.Props.C11
